@@ -540,7 +540,8 @@ Qed.
 (* ---- one element: the rows are those of the span the object denotes *)
 Lemma decode_span_pushed i e sr st' p :
   decode_span fixed (set_payload z_init (PRef i)) e = Some (sr, st') -> z_wellformed e = true -> zipkin_pushed e = Some p ->
-  span_rows_of p sr /\ t_ptype (fst sr) = 1 /\ t_payload (fst sr) = PRef i /\ p_ordered p = true.
+  span_rows_of p sr /\ t_ptype (fst sr) = 1 /\ t_payload (fst sr) = PRef i /\ p_ordered p = true /\
+  map kv_of (snd sr) = p_tags p.
 Proof.
   unfold decode_span, zipkin_pushed. destruct e as [| | | | |fs|]; try discriminate.
   destruct (z_fields fixed (set_payload z_init (PRef i)) fs) as [st1|] eqn:Ez; [|discriminate].
@@ -587,7 +588,7 @@ Proof.
     tauto.
   - unfold tags_of. cbn. split; [exact Hall|].
     rewrite Hkv, Rkv, Rsvc. apply Permutation_refl.
-  - cbn. rewrite Rpl. tauto.
+  - cbn. rewrite Rpl. split; [reflexivity|]. split; [reflexivity|]. split; [reflexivity|]. now rewrite Hkv, Rkv, Rsvc.
 Qed.
 
 (* ---- framing: every element is decoded from a fresh state, whatever the framing *)
@@ -625,7 +626,7 @@ Proof.
     cbn [forallb] in Hwf. apply andb_prop in Hwf. destruct Hwf as [Hwe Hwf].
     cbn [mapM] in Hp. destruct (zipkin_pushed e) as [p|] eqn:Epu; [|discriminate].
     destruct (mapM zipkin_pushed es) as [ps'|] eqn:Eps; [|discriminate]. inversion Hp; subst ps; clear Hp.
-    destruct (decode_span_pushed _ _ _ _ _ Ed Hwe Epu) as [H1 [H2 [H3 H4]]].
+    destruct (decode_span_pushed _ _ _ _ _ Ed Hwe Epu) as [H1 [H2 [H3 [H4 _]]]].
     destruct (IH _ _ _ _ Er Hwf eq_refl) as [I1 [I2 I3]].
     split; [constructor; assumption|]. split; [constructor; [split; assumption|assumption]|].
     intros [|k] sr' Hn; cbn [nth_error] in Hn.
@@ -724,7 +725,7 @@ Lemma zipkin_read_one es_all i e sr st' p :
   nth_error es_all (N.to_nat i) = Some e ->
   reads_back (parent_len_ok e) p (read_row fixed es_all (fst sr)).
 Proof.
-  intros Hd Hwf Hp Hn. destruct (decode_span_pushed _ _ _ _ _ Hd Hwf Hp) as [[Hrow _] [Hpt [Hpl _]]].
+  intros Hd Hwf Hp Hn. destruct (decode_span_pushed _ _ _ _ _ Hd Hwf Hp) as [[Hrow _] [Hpt [Hpl [_ _]]]].
   unfold read_row. rewrite Hpt, Hpl, Hn. cbn [Z.eqb Pos.eqb].
   destruct e as [| | | | |fs|]; try discriminate Hp.
   destruct (zipkin_pushed_fields _ _ Hp) as [Fname [Fpar [Fattrs Ford]]].
@@ -1001,3 +1002,187 @@ Example legacy_ndjson_state :
   spec_ok false (model_case {| q_list_drop := false; q_remote_inverted := false; q_nd_stateful := true; q_peer_first := false |} (ex_zipkin true)) = false
   /\ spec_ok false (model_case {| q_list_drop := false; q_remote_inverted := false; q_nd_stateful := true; q_peer_first := false |} (ex_zipkin false)) = true.
 Proof. vm_compute. split; reflexivity. Qed.
+
+(* ================================================================== the check's oracle accepts the model's own output
+   (so that, through the correspondence, it is the theorems above that are tested on the implementation's observations) *)
+Lemma aval_eqb_refl v : aval_eqb v v = true.
+Proof.
+  induction v as [s|z|b|d|s| | |l HF|l HF] using aval_ind'; cbn [aval_eqb];
+    try apply String.eqb_refl; try apply Z.eqb_refl; try reflexivity.
+  - destruct b; reflexivity.
+  - induction HF as [|x l Hx Hl IHl]; [reflexivity|]. now rewrite Hx, IHl.
+  - induction HF as [|x l Hx Hl IHl]; [reflexivity|]. now rewrite String.eqb_refl, Hx, IHl.
+Qed.
+Lemma attr_eqb_refl a : attr_eqb a a = true.
+Proof. unfold attr_eqb. now rewrite String.eqb_refl, aval_eqb_refl. Qed.
+Lemma kv_eqb_refl a : kv_eqb a a = true.
+Proof. unfold kv_eqb. now rewrite !String.eqb_refl. Qed.
+Lemma all2_refl {A} (eqb : A -> A -> bool) : (forall x, eqb x x = true) -> forall l, all2 eqb l l = true.
+Proof. intros H. induction l as [|x l IH]; cbn; [reflexivity|]. now rewrite H, IH. Qed.
+
+Lemma chunks_concat {A} (ls : list (list A)) : chunks (map (@List.length A) ls) (List.concat ls) = Some ls.
+Proof.
+  induction ls as [|l ls IH]; cbn [map List.concat chunks]; [reflexivity|].
+  rewrite app_length. replace (Nat.ltb (List.length l + List.length (List.concat ls)) (List.length l)) with false
+    by (symmetry; apply Nat.ltb_ge; lia).
+  rewrite firstn_app, Nat.sub_diag, firstn_all. cbn [firstn]. rewrite app_nil_r.
+  rewrite skipn_app, Nat.sub_diag, skipn_all. cbn [skipn app]. now rewrite IH.
+Qed.
+
+(* per span: everything the oracle looks at *)
+Definition span_checked (inp : input) (elems : list jv) (idx : N) (g : bool) (p : pushed) (sr : span_rows) : Prop :=
+  row_ok inp idx p (fst sr) = true /\ tag_group_ok p (snd sr) = true /\
+  List.length (snd sr) = List.length (p_tags p) /\ read_ok g p (read_row fixed elems (fst sr)) = true.
+
+Lemma row_fields_ok inp idx p r : row_of p r -> payload_ok inp idx p r = true -> row_ok inp idx p r = true.
+Proof.
+  intros [H1 [H2 [H3 [H4 [H5 [H6 [H7 _]]]]]]] Hp. unfold row_ok.
+  now rewrite H1, H2, H3, H4, H5, H6, H7, !String.eqb_refl, !Z.eqb_refl, Hp.
+Qed.
+
+Lemma tag_group_checked p tags :
+  (forall a, In a tags -> a_trace a = p_trace p /\ a_span a = p_span p /\ a_ts a = p_ts p /\ a_dur a = p_dur p /\ a_date a = date_of (p_ts p)) ->
+  map kv_of tags = p_tags p -> tag_group_ok p tags = true.
+Proof.
+  intros Hall Hkv. unfold tag_group_ok. apply andb_true_intro. split.
+  - apply forallb_forall. intros a Ha. destruct (Hall a Ha) as [E1 [E2 [E3 [E4 E5]]]].
+    now rewrite E1, E2, E3, E4, E5, !String.eqb_refl, !Z.eqb_refl.
+  - fold kv_of. change (fun a : arow => (a_key a, a_val a)) with kv_of. rewrite Hkv. apply perm_eqb_refl, kv_eqb_refl.
+Qed.
+
+Lemma read_checked g p o : reads_back g p o -> read_ok g p o = true.
+Proof.
+  intros [r [-> [H1 [H2 [H3 [H4 [H5 [H6 [_ [H8 H9]]]]]]]]]]. unfold read_ok.
+  rewrite H1, H2, H4, H5, H6, !String.eqb_refl, !Z.eqb_refl. cbn [andb].
+  assert (Hpar : negb g || String.eqb (rs_parent r) (p_parent p) = true).
+  { destruct g; [|reflexivity]. rewrite (H3 eq_refl). apply String.eqb_refl. }
+  rewrite Hpar. cbn [andb]. destruct (p_ordered p) eqn:Eo.
+  - destruct (H9 eq_refl) as [extra [-> Hex]].
+    rewrite firstn_app, Nat.sub_diag, firstn_all. cbn [firstn]. rewrite app_nil_r.
+    rewrite skipn_app, Nat.sub_diag, skipn_all. cbn [skipn app].
+    unfold list_eqb. rewrite (all2_refl attr_eqb attr_eqb_refl). cbn [andb].
+    apply forallb_forall. intros x Hx. rewrite Forall_forall in Hex. apply Hex, Hx.
+  - rewrite (H8 eq_refl). apply perm_eqb_refl, attr_eqb_refl.
+Qed.
+
+Lemma otlp_span_checked b ra s sr p :
+  otlp_span fixed ra s = Some sr -> otlp_pushed ra s = Some p -> 0 <= o_start s < two64 -> 0 <= o_end s < two64 ->
+  forall idx, span_checked (InOtlp b) [] idx true p sr.
+Proof.
+  intros Hs Hp Hst Hen idx. pose proof (otlp_read_one ra s sr p Hs Hp Hst Hen) as Hread.
+  destruct (otlp_span_pushed _ _ _ _ Hs Hp) as [[Hrow _] [Hpt [Hpl [Hattrs [_ [Ht [Hsp [Hpa [Hn _]]]]]]]]].
+  unfold otlp_span in Hs. cbn [fixed q_list_drop negb] in Hs. unfold otlp_pushed in Hp.
+  destruct (flat_attrs true (populate (o_attrs s ++ ra)%list) []) as [m|]; [|discriminate].
+  destruct sr as [row tags]. apply on_span_some in Hs. destruct Hs as [_ [_ [_ [Hkv Hall]]]].
+  inversion Hp; subst p; clear Hp. unfold span_checked. cbn [fst snd p_tags p_trace p_span p_ts p_dur] in *.
+  split; [|split; [|split]].
+  - apply row_fields_ok; [exact Hrow|]. unfold payload_ok. rewrite Hpl, Hpt. cbn [Z.eqb Pos.eqb with_attrs o_trace o_span o_parent o_name o_attrs p_trace p_span p_parent p_name p_attrs].
+    rewrite !String.eqb_refl. cbn [andb]. apply perm_eqb_refl, attr_eqb_refl.
+  - apply tag_group_checked; [exact Hall|exact Hkv].
+  - rewrite <- Hkv. now rewrite map_length.
+  - apply read_checked, Hread.
+Qed.
+
+(* the per-request folds of the oracle *)
+Lemma rows_ok_all inp : forall ps (rows : list span_rows) idx,
+  Forall2 (fun p sr => forall i, row_ok inp i p (fst sr) = true) ps rows -> rows_ok inp idx ps (map fst rows) = true.
+Proof.
+  induction ps as [|p ps IH]; intros rows idx F; inversion F; subst; cbn [map rows_ok]; [reflexivity|].
+  rewrite H1. cbn [andb]. apply IH. assumption.
+Qed.
+
+Lemma tags_ok_all ps (rows : list span_rows) :
+  Forall2 (fun p sr => tag_group_ok p (snd sr) = true /\ List.length (snd sr) = List.length (p_tags p)) ps rows ->
+  tags_ok ps (List.concat (map snd rows)) = true.
+Proof.
+  intros F. unfold tags_ok.
+  assert (Hl : map (fun p => List.length (p_tags p)) ps = map (@List.length arow) (map snd rows)).
+  { induction F as [|p sr ps' rows' [_ Hlen] _ IH]; cbn [map]; [reflexivity|]. now rewrite Hlen, IH. }
+  rewrite Hl, chunks_concat.
+  induction F as [|p sr ps' rows' [Hg _] F' IH]; cbn [map all2]; [reflexivity|]. rewrite Hg. cbn [andb]. apply IH.
+  inversion Hl. reflexivity.
+Qed.
+
+Lemma zipkin_checked_from nd es_all es : forall i st rows ps,
+  (forall k e, nth_error es k = Some e -> nth_error es_all (N.to_nat i + k) = Some e) ->
+  zipkin_from fixed nd i st es = Some rows -> forallb z_wellformed es = true -> mapM zipkin_pushed es = Some ps ->
+  rows_ok (InZipkin nd es_all) i ps (map fst rows) = true /\
+  Forall2 (fun p sr => tag_group_ok p (snd sr) = true /\ List.length (snd sr) = List.length (p_tags p)) ps rows /\
+  reads_ok false (map parent_len_ok es) ps (map (read_row fixed es_all) (map fst rows)) = true.
+Proof.
+  induction es as [|e es IH]; intros i st rows ps Hidx Hd Hwf Hp.
+  - cbn in Hd, Hp. inversion Hd; inversion Hp. cbn. split; [reflexivity|]. split; [constructor|reflexivity].
+  - cbn [zipkin_from] in Hd. replace (nd && q_nd_stateful fixed) with false in Hd by (cbn; now rewrite andb_false_r).
+    destruct (decode_span fixed (set_payload z_init (PRef i)) e) as [[sr st']|] eqn:Ed; [|discriminate].
+    destruct (zipkin_from fixed nd (i + 1) st' es) as [rs|] eqn:Er; [|discriminate]. inversion Hd; subst rows; clear Hd.
+    cbn [forallb] in Hwf. apply andb_prop in Hwf. destruct Hwf as [Hwe Hwf].
+    cbn [mapM] in Hp. destruct (zipkin_pushed e) as [p|] eqn:Epu; [|discriminate].
+    destruct (mapM zipkin_pushed es) as [ps'|] eqn:Eps; [|discriminate]. inversion Hp; subst ps; clear Hp.
+    destruct (decode_span_pushed _ _ _ _ _ Ed Hwe Epu) as [[Hrow [Hall _]] [Hpt [Hpl [_ Hkv]]]].
+    assert (Hn : nth_error es_all (N.to_nat i) = Some e).
+    { specialize (Hidx 0%nat e eq_refl). now rewrite Nat.add_0_r in Hidx. }
+    pose proof (zipkin_read_one es_all i e sr st' p Ed Hwe Epu Hn) as Hread.
+    assert (Hidx' : forall k e', nth_error es k = Some e' -> nth_error es_all (N.to_nat (i + 1) + k) = Some e').
+    { intros k e' Hk. specialize (Hidx (S k) e' Hk). replace (N.to_nat (i + 1) + k)%nat with (N.to_nat i + S k)%nat by lia. exact Hidx. }
+    destruct (IH (i + 1)%N st' rs ps' Hidx' Er Hwf eq_refl) as [I1 [I2 I3]].
+    cbn [map rows_ok reads_ok]. split; [|split].
+    + rewrite I1, andb_true_r. apply row_fields_ok; [exact Hrow|]. unfold payload_ok. rewrite Hpl, Hpt, N.eqb_refl. reflexivity.
+    + constructor; [|exact I2]. split; [apply tag_group_checked; assumption|]. rewrite <- Hkv. now rewrite map_length.
+    + rewrite I3, andb_true_r. cbn [orb]. apply read_checked, Hread.
+Qed.
+
+Lemma otlp_checked_all b : forall l rows ps,
+  (forall x, In x l -> 0 <= o_start (snd x) < two64 /\ 0 <= o_end (snd x) < two64) ->
+  mapM (fun x => otlp_span fixed (fst x) (snd x)) l = Some rows -> mapM (fun x => otlp_pushed (fst x) (snd x)) l = Some ps ->
+  Forall2 (fun p sr => forall i, span_checked (InOtlp b) [] i true p sr) ps rows.
+Proof.
+  induction l as [|[ra s] l IH]; intros rows ps Ht Hd Hp; cbn [mapM fst snd] in Hd, Hp.
+  - inversion Hd; inversion Hp. constructor.
+  - destruct (otlp_span fixed ra s) as [sr|] eqn:Es; [|discriminate].
+    destruct (mapM (fun x => otlp_span fixed (fst x) (snd x)) l) as [rs|]; [|discriminate].
+    destruct (otlp_pushed ra s) as [p|] eqn:Ep; [|discriminate].
+    destruct (mapM (fun x => otlp_pushed (fst x) (snd x)) l) as [ps'|]; [|discriminate].
+    inversion Hd; inversion Hp; subst. constructor.
+    + destruct (Ht (ra, s) (or_introl eq_refl)) as [H1 H2]. intros i. apply (otlp_span_checked b ra s sr p Es Ep H1 H2).
+    + apply IH; try reflexivity. intros x Hx. apply Ht. now right.
+Qed.
+
+Lemma reads_ok_otlp (ps : list pushed) (rows : list span_rows) (gs : list bool) :
+  List.length gs = List.length ps ->
+  Forall2 (fun p sr => read_ok true p (read_row fixed [] (fst sr)) = true) ps rows ->
+  reads_ok false gs ps (map (read_row fixed []) (map fst rows)) = true.
+Proof.
+  intros Hl F. revert gs Hl. induction F as [|p sr ps' rows' Hr _ IH]; intros gs Hl; destruct gs as [|g gs]; try discriminate Hl.
+  - reflexivity.
+  - cbn [map reads_ok orb]. rewrite IH by (cbn in Hl; lia). rewrite andb_true_r.
+    unfold read_ok in *. destruct (read_row fixed [] (fst sr)); [|discriminate]. destruct g; [exact Hr|].
+    cbn [negb orb]. revert Hr. cbn [negb orb]. 
+    repeat rewrite andb_true_iff. intros H. tauto.
+Qed.
+
+Lemma Forall2_imp {A B} (R S : A -> B -> Prop) a b : (forall x y, R x y -> S x y) -> Forall2 R a b -> Forall2 S a b.
+Proof. intros H F. induction F; constructor; auto. Qed.
+
+Theorem model_meets_spec_l : forall inp, in_range inp -> spec_ok false (model_case fixed inp) = true.
+Proof.
+  intros inp Hr. unfold model_case. destruct (decode fixed inp) as [rows|] eqn:Ed; [|reflexivity].
+  unfold spec_ok. cbn [c_err c_in c_rows c_tags c_read].
+  destruct (pushed_of inp) as [ps|] eqn:Ep; [|reflexivity].
+  destruct (forallb widths_ok ps); [|reflexivity].
+  destruct inp as [b|nd es]; cbn [decode in_elems in_range parent_guards] in *.
+  - cbn [pushed_of] in Ep. destruct (forallb r_has_res b) eqn:Hres; [|discriminate].
+    rewrite (otlp_decode_flat b Hres) in Ed.
+    pose proof (otlp_checked_all b _ _ _ Hr Ed Ep) as F.
+    assert (F1 : Forall2 (fun p sr => forall i, row_ok (InOtlp b) i p (fst sr) = true) ps rows)
+      by (eapply Forall2_imp; [|exact F]; intros p sr H i; apply (H i)).
+    assert (F2 : Forall2 (fun p sr => tag_group_ok p (snd sr) = true /\ List.length (snd sr) = List.length (p_tags p)) ps rows)
+      by (eapply Forall2_imp; [|exact F]; intros p sr H; destruct (H 0%N) as [_ [H2 [H3 _]]]; tauto).
+    assert (F3 : Forall2 (fun p sr => read_ok true p (read_row fixed [] (fst sr)) = true) ps rows)
+      by (eapply Forall2_imp; [|exact F]; intros p sr H; destruct (H 0%N) as [_ [_ [_ H4]]]; exact H4).
+    rewrite (rows_ok_all _ _ _ _ F1), (tags_ok_all _ _ F2). cbn [andb].
+    apply reads_ok_otlp; [|exact F3]. rewrite map_length. symmetry. apply (mapM_length _ _ _ Ep).
+  - cbn [pushed_of] in Ep. destruct (forallb z_wellformed es) eqn:Hwf; [|discriminate].
+    unfold zipkin_decode in Ed.
+    destruct (zipkin_checked_from nd es es 0%N z_init rows ps (fun k e H => H) Ed Hwf Ep) as [H1 [H2 H3]].
+    now rewrite H1, (tags_ok_all _ _ H2), H3.
+Qed.
